@@ -87,7 +87,11 @@ class G:
                 return {"k": "Count", "tr": "sq"}
             return {"k": "Count"}
         if k == "Bag":
-            if r.random() < 0.5:
+            c = r.random()
+            if c < 0.25 and not self.faults:
+                n = r.choice([2, 2, 3])
+                return {"k": "Bag", "range": "N%d" % n, "q": self.q(["vec"] + [r.randint(0, 2) for _ in range(n)])}
+            if c < 0.6:
                 return {"k": "Bag", "range": "N", "q": self.q(self.numexpr())}
             return {"k": "Bag", "range": "S", "q": self.q(self.wrapfault(["f", 3], "wrongN"))}
         return {"k": k, "q": self.q(self.numexpr())}
@@ -190,6 +194,9 @@ def neighbours(x, k=2):
 
 
 def fields_of(e):
+    if e[0] == "vec":
+        yield from e[1:]
+        return
     if e[0] == "f":
         yield e[1]
     for x in e[1:]:
@@ -257,6 +264,8 @@ def critical_by_field(spec):
 
 
 def consts(e):
+    if e[0] == "vec":
+        return
     if e[0] == "c":
         yield e[1]
     for x in e[1:]:
